@@ -423,8 +423,23 @@ fn c03_strategy(tier: Tier) -> BoxedStrategy<Case> {
             1,
         ),
         4,
-        set_case_strategy(SetGen { prop: 3, weights: C03_SET_WEIGHTS, max_ops: n, generic_pct: 20, plain_pct: 0 }),
-        1,
+        union2(
+            set_case_strategy(SetGen { prop: 3, weights: C03_SET_WEIGHTS, max_ops: n, generic_pct: 20, plain_pct: 0 }),
+            1,
+            // tracked element layouts incl. the zero-sized type with drop glue
+            {
+                use proptest::prelude::*;
+                lay_case_strategy(LayGen { prop: 3, weights: C02_WEIGHTS, max_ops: n, generic_pct: 20 })
+                    .prop_map(|mut c| {
+                        let l = c.h("layout");
+                        c.set("layout", 14 + l % 6);
+                        c
+                    })
+                    .boxed()
+            },
+            1,
+        ),
+        2,
     )
 }
 
@@ -434,7 +449,8 @@ fn c03_nontrivial(_c: &Case, o: &Outcome) -> bool {
 
 pub static C03: PropDef = PropDef {
     id: "C03",
-    rule: "histories over HashMap (3/4) and HashTable (1/4) with tracked elements (unique serial, magic word, drop \
+    rule: "histories over HashMap, HashTable, HashSet and (one sixth) the layout programs of C02 restricted to the six tracked \
+           element layouts incl. a zero-sized type with drop glue, all with tracked elements (unique serial, magic word, drop \
            glue): removal, overwrite, clear, retain, extract_if, drain, into_iter/into_keys/into_values, shrink, \
            clone_from into occupied targets, drop; every owning iterator is cut at a generated point and dropped; \
            non-trivial = an owning iterator / drain / extract_if was cut strictly inside, OR clone_from hit a target \
@@ -993,8 +1009,8 @@ fn c02_nontrivial(c: &Case, o: &Outcome) -> bool {
 
 pub static C02: PropDef = PropDef {
     id: "C02",
-    rule: "safe-API programs over HashTable / HashSet / HashMap<E,E> for 19 element layouts (14 plain (size, align) \
-           pairs from (0,1) and (0,64) to (64,64) and (200,8), 5 tracked ones) x hash plans x both back-ends: \
+    rule: "safe-API programs over HashTable / HashSet / HashMap<E,E> for 20 element layouts (14 plain (size, align) \
+           pairs from (0,1) and (0,64) to (64,64) and (200,8), 6 tracked ones incl. a zero-sized type with drop glue) x hash plans x both back-ends: \
            insert/remove/lookup/reserve/shrink/clone/retain plus life-cycle operations that create an iterator, drain, \
            extract_if, into_iter, entry, raw entry, rustc entry or occupied-error object, advance it j steps and then \
            DROP or mem::forget it and keep using the collection; one quarter of the cases are HashMap histories with \
@@ -1073,7 +1089,7 @@ fn c08_nontrivial(c: &Case, o: &Outcome) -> bool {
 pub static C08: PropDef = PropDef {
     id: "C08",
     rule: "states from histories (tombstones included) x n, m drawn from 0..4*capacity and the 7/8*2^k / 2^k boundaries x \
-           19 element layouts (minimum table size depends on element size) x the three collection kinds on the checking \
+           20 element layouts (minimum table size depends on element size) x the three collection kinds on the checking \
            allocator, plus new()/default()/with_capacity(0) on Global observed through a counting global allocator; \
            oracle: capacity >= len; after with_capacity/reserve capacity >= len+n; inserting capacity()-len() fresh keys \
            makes zero allocator calls; clear/drain keep the block; allocation_size() == ledger bytes; the shrink \
@@ -1121,7 +1137,7 @@ fn c12_nontrivial(_c: &Case, o: &Outcome) -> bool {
 pub static C12: PropDef = PropDef {
     id: "C12",
     rule: "states x `additional` from {0..64, around every 7/8*2^k and 2^k (k <= 14), isize::MAX, usize::MAX, \
-           usize::MAX/size_of::<T>() +- 1, ...} x 19 layouts incl. zero-sized x 3 collection kinds x allocator behaviour \
+           usize::MAX/size_of::<T>() +- 1, ...} x 20 layouts incl. zero-sized x 3 collection kinds x allocator behaviour \
            {grant, refuse the j-th request, refuse above a limit L}; oracle: Ok (capacity >= len+additional) | \
            CapacityOverflow (never when an independently computed generous block size fits under L) | AllocError with \
            exactly a refused layout; never a panic; every layout shown to the allocator is valid; on Err contents, len, \
